@@ -35,11 +35,13 @@ def project(x):
     return [int(t) for t in a.reshape(-1).tolist()]
 
 
-def build(prog, kc, rec=None, tag=None, prims_only=False, inline_calls=False):
+def build(prog, kc, rec=None, tag=None, prims_only=False, inline_calls=False, close_calls=False):
     """Return f(*inputs) -> tuple of output leaves for the IR program `prog`.
 
     kc: the closed-over constants (KConsts of the spec, printed with the case).
     rec / tag: genjax.time_travel.rec / tag for `rec` equations (C31 only).
+    close_calls: the function wrapped by `call` receives its FIRST operand through its closure instead of as an argument
+    (same meaning; the operand becomes a hoisted constant of the initial-style primitive, a tracer of the enclosing staging pass).
     inline_calls: the IR op `call` applies the wrapped function directly instead of going through genjax's
     initial_style_bind (used only to tell a builder bug from a broken initial-style primitive).
     prims_only: arithmetic is written with lax primitives instead of the jit-wrapped jnp functions (same values; the
@@ -126,6 +128,10 @@ def build(prog, kc, rec=None, tag=None, prims_only=False, inline_calls=False):
             return list(st[1:])
         if op == "call" and inline_calls:
             return list(mk(e["sub"][0])(*a))
+        if op == "call" and close_calls and len(a) >= 1:
+            from genjax._src.core.compiler.initial_style_primitive import initial_style_bind
+            sub, a0 = mk(e["sub"][0]), a[0]
+            return list(initial_style_bind(call_primitive())(lambda *rest: sub(a0, *rest))(*a[1:]))
         if op == "call":
             from genjax._src.core.compiler.initial_style_primitive import initial_style_bind
             return list(initial_style_bind(call_primitive())(mk(e["sub"][0]))(*a))
